@@ -122,6 +122,16 @@ let run_case (t : string list) : string =
     (match expand_pass_exec (unhex dest) (zs stride) (zs p) (zs line) (zs width) (zs bits) (unhex row) with
      | Some d -> hex d
      | None -> "PANIC invalid pass")
+  | ["reader"; rows; declared; fctl0; ops] ->
+    let rl = List.map (fun x -> nat_of_int (int_of_string x)) (String.split_on_char ',' rows) in
+    let im = { rows = rl; declared = nat_of_int (int_of_string declared); has_fctl = (fun k -> if k = O then fctl0 = "1" else true) } in
+    let vis = total im in
+    let opl = List.init (String.length ops) (fun i -> ((match ops.[i] with 'F' -> OFrame | 'N' -> OFrameInfo | 'X' -> OFinish | _ -> ORow), vis)) in
+    let (_, rs) = run im (reader_init im) opl in
+    String.concat " " (List.map (fun (r, _) -> match r with
+      | RFrame k -> Printf.sprintf "F%d" (int_of_nat k) | RRowNone -> "none" | RRow (k, j) -> Printf.sprintf "r%d.%d" (int_of_nat k) (int_of_nat j)
+      | RInfo k -> Printf.sprintf "N%d" (int_of_nat k) | RFinished -> "X" | REndOfImage -> "E" | REofR -> "eof" | RMissingData -> "missing"
+      | RPanicR n -> Printf.sprintf "PANIC%d" (int_of_nat n)) rs)
   | ["transform"; c; d; t; pal; trns; w; row] ->
     let o s = if s = "-" then None else if s = "e" then Some [] else Some (unhex s) in
     let i = { t_color = zs c; t_depth = zs d; t_palette = o pal; t_trns = o trns } in
